@@ -270,6 +270,13 @@ func (r *WALReader) ReadHeader() error {
 		return fmt.Errorf("unsupported wal version: %d", version)
 	}
 
+	// Like SQLite, only accept page sizes that are a power of two between 512
+	// and 65536. The frame checksum works on 8-byte words and callers size
+	// their buffers from this field.
+	if pageSize := binary.BigEndian.Uint32(hdr[8:]); pageSize < 512 || pageSize > 65536 || pageSize&(pageSize-1) != 0 {
+		return fmt.Errorf("invalid wal page size: %d", pageSize)
+	}
+
 	r.pageSize = binary.BigEndian.Uint32(hdr[8:])
 	r.seq = binary.BigEndian.Uint32(hdr[12:])
 	r.salt1 = binary.BigEndian.Uint32(hdr[16:])
